@@ -80,10 +80,52 @@ def check_point(ctx, P, e, key):
         for c in (-2.0, 0.5, 7.0):
             if not np.allclose(R.Exp_SO3_quat(c * Pf), Rm, atol=1e-12):
                 ctx.violation(f"{key}:scale", f"Exp_SO3_quat({c} P) != Exp_SO3_quat(P) at P={P}", {"P": P}); ok = False
+        # the same lattice point at other lengths, in particular within 1e-3 ... 1e-9 of unit length and at extreme lengths:
+        # R(cP) = R(P), dR/dP(cP) = dR/dP(P)/c, T(cP) = T(P)/c, T_inv(cP) = c T_inv(P)   (homogeneity of the rational kernel)
+        rs = np.sqrt(s)
+        scales = ((1 + 2e-6) / rs, (1 - 3e-6) / rs, (1 + 1e-9) / rs, (1 - 4e-4) / rs, 1.0 / rs, 1e-6, 3e5)
+        if not ctx.thorough:        # quick tier: four lengths on every third lattice point
+            scales = scales[:2] + scales[4:5] + scales[6:] if (int(abs(P[0]) + 2 * abs(P[1]) + 3 * abs(P[2]) + 5 * abs(P[3])) % 3 == 0) else ()
+        for c in scales:
+            Q = c * Pf
+            tag = "near-unit" if abs(c * rs - 1) < 1e-2 else "rescaled"
+            ok &= _cmp(ctx, f"{key}:{tag}", "Exp_SO3_quat", R.Exp_SO3_quat(Q.copy()) * s, e["N"], P)
+            ok &= _cmp(ctx, f"{key}:{tag}", "Exp_SO3_quat_P", np.moveaxis(R.Exp_SO3_quat_P(Q.copy()), 2, 0) * s * s * c, e["dR"], P)
+            ok &= _cmp(ctx, f"{key}:{tag}", "T_SO3_quat", R.T_SO3_quat(Q.copy()) * s / 2 * c, e["Tn"], P)
+            ok &= _cmp(ctx, f"{key}:{tag}", "T_SO3_inv_quat", R.T_SO3_inv_quat(Q.copy()) * 2 / c, e["Ti"], P)
+            ok &= _cmp(ctx, f"{key}:{tag}", "T_SO3_quat_P", np.moveaxis(R.T_SO3_quat_P(Q.copy()), 2, 0) * s * s * c * c, e["dT"], P)
     except Exception as ex:
         ctx.violation(f"{key}:raises", f"evaluation at P={P} raised {type(ex).__name__}: {ex}", {"P": P})
         return False
     return ok
+
+
+def purity(ctx, points):
+    """the routines are functions of the argument's VALUE: a buffer that is modified in place between two calls must give the
+    result of the new value (histories: same array object, mutated, called again)"""
+    from cardillo.math import rotations as R
+
+    n = 0
+    fns = [("Exp_SO3_quat", lambda b: R.Exp_SO3_quat(b)), ("Exp_SO3_quat_P", lambda b: R.Exp_SO3_quat_P(b)), ("T_SO3_quat", lambda b: R.T_SO3_quat(b)),
+           ("T_SO3_inv_quat", lambda b: R.T_SO3_inv_quat(b)), ("T_SO3_quat_P", lambda b: R.T_SO3_quat_P(b)), ("T_SO3_inv_quat_P", lambda b: R.T_SO3_inv_quat_P(b)),
+           ("quatprod(b, b)", lambda b: R.quatprod(b, b))]
+    for name, f in fns:
+        # expected values first (fresh arrays), then an uninterrupted sequence of calls on ONE buffer that is updated in place
+        fresh = [np.array(f(np.array(P, dtype=float)), dtype=float) for P in points]
+        buf = np.zeros(4)
+        prev = None
+        for P, exp in zip(points, fresh):
+            buf[:] = P
+            got = np.array(f(buf), dtype=float)
+            n += 1
+            if not np.array_equal(got, exp):
+                ctx.violation(f"purity:{name}", f"{name} on a buffer updated in place from {prev} to {list(P)} returned the result of another value", {"P": list(P), "previous": prev})
+                break
+            if not np.array_equal(buf, np.array(P, dtype=float)):
+                ctx.violation(f"purity:{name}:mutates-argument", f"{name} modified its argument {list(P)}", {"P": list(P)})
+                break
+            prev = list(P)
+    return n
 
 
 def _cfg(path, gmax, qmax, points, invs=True, det=True):
@@ -120,7 +162,8 @@ def run(ctx):
                 nok += 1
             if len(samples) < 2 and points == "grid" and npts % 97 == 0:
                 samples.append({"P": P, "s": st["expected"]["s"], "N": st["expected"]["N"]})
-    ctx.log(f"[C01] {npts} lattice quaternions evaluated on the real routines, {nok} exact")
+    npure = purity(ctx, [(1, 0, 0, 0), (1, 2, -1, 3), (1, 2, -1, 3), (0, 1, 1, -2), (2, 0, 0, 0), (1, 0, 0, 0), (0, 0, 0, 1), (0, 0, 0, 2), (3, -50, 20, 1)])
+    ctx.log(f"[C01] {npts} lattice quaternions evaluated on the real routines (each at 8 lengths), {nok} exact; {npure} in-place buffer histories")
     ctx.coverage = {"states": states, "transitions": max(trans, 1), "traces_validated_against_impl": npts, "samples": samples,
                     "exhaustive": True, "grid": f"-{gmax}..{gmax}", "routines": 16,
                     "rule": "all nonzero integer quaternions of the grid (a uniqueness set for the cleared identities of per-variable degree <= 4) "
